@@ -22,6 +22,8 @@ pub fn units(tier: &str, _seed: u64) -> Vec<String> {
         v.push(unit(&[("shape", "U:CAL:ELECTRICIDAD;U:ACS:ELECTRICIDAD;P:EL_INSITU;P:EL_COGEN;U:COGEN:GASNATURAL"), ("n", "1"), ("fs", "PEN"), ("k", "sym"), ("a", "sym"), ("lm", lm)]));
     }
     v.push(unit(&[("shape", shapes[0]), ("n", "2"), ("fs", "PEN"), ("k", "sym"), ("a", "sym"), ("lm", "1")]));
+    // fractions of a Wh
+    v.push(unit(&[("shape", shapes[2]), ("n", "1"), ("fs", "PEN"), ("k", "sym"), ("a", "sym"), ("dom", "0.00001:0.01")]));
     if tier == "thorough" {
         for s in shapes {
             v.push(unit(&[("shape", s), ("n", "2"), ("fs", "CEU"), ("k", "sym"), ("a", "sym"), ("lm", "1")]));
